@@ -55,6 +55,8 @@ PROPS = {
                      J("lr.overlap", "wl_lr", 20000, 500000, mode="overlap"),
                      J("rcu.freeze", "wl_rcu", 60000, 1500000, mode="freeze", elem=0),
                      J("cow.freeze", "wl_cow", 60000, 1500000, mode="freeze")]},
+    "C16": {"jobs": [J("dd.locked", "wl_dd", 150000, 4000000, single=0),
+                     J("dd.single", "wl_dd", 60000, 1500000, single=1)]},
     "C17": {"jobs": [J("soh.std", "wl_soh", 150000, 4000000, mode="std")]},
     "C18": {"jobs": [J("dobj", "wl_dobj", 100000, 2500000)]},
     "C19": {"jobs": [J("trip.explicit", "wl_trip", 200000, 5000000, mode="explicit"),
